@@ -610,19 +610,27 @@ func (c *Client) submitPersisted(packet net.Buffers, out outbound) (exchange <-c
 	// submit
 	if hasBacklog {
 		verifEv("default")
-		// buffered channel won't block
-		done <- fmt.Errorf("%w; PUBLISH enqueued", ErrDown)
+		applyIfOpen(done, fmt.Errorf("%w; PUBLISH enqueued", ErrDown))
 	} else {
 		err = c.writeBuffersNoWait(packet)
 		if err != nil {
-			// buffered channel won't block
-			done <- fmt.Errorf("%w; PUBLISH enqueued", err)
+			applyIfOpen(done, fmt.Errorf("%w; PUBLISH enqueued", err))
 		} else {
 			seq.submitN = seq.acceptN
 		}
 	}
 
 	return done, nil
+}
+
+// ApplyIfOpen sends err to an exchange channel that is in the acknowledgement
+// queue already. The buffered channel won't block, yet the read routine closes
+// it once the broker confirms, which may come before the submission is through.
+func applyIfOpen(done chan<- error, err error) {
+	defer func() {
+		_ = recover() // closed: confirmed in the mean time
+	}()
+	done <- err
 }
 
 func (c *Client) applySeqNoAndEnqueue(packet net.Buffers, seqNo uint, out outbound) (done chan error, err error) {
